@@ -418,7 +418,11 @@ Lemma ml_S f varid p0 toks :
       let next (toks' : list tk) : res :=
           match drop_word p with [] => Rtrue | p' => ml f varid p' toks' end in
       match toks with
-      | [] => if is_not then ml f varid (drop_word p) [] else Rfalse
+      | [] => if is_not then ml f varid (drop_word p) []
+              else if negb (at_ 0 p =? 124) && negb ((at_ 0 p =? 91) && mem_N 93 (first_word p)) &&
+                      (last (first_word p) 0 =? 124)
+                   then ml f varid (drop_word p) []
+                   else Rfalse
       | t :: r =>
         if (at_ 0 p =? 91) && mem_N 93 (first_word p) then
           match t_str t with
@@ -452,6 +456,55 @@ Qed.
 
 Lemma pat_lits_cons w ws l : In l (pat_lits ws) -> In l (pat_lits (w :: ws)).
 Proof. unfold pat_lits. cbn [map List.concat]. intros H. apply in_or_app. now right. Qed.
+
+
+Lemma last_app_ne (a b : str) d : b <> [] -> last (a ++ b) d = last b d.
+Proof.
+  intros Hb. induction a as [|x a IH]; [reflexivity|]. cbn [app].
+  destruct (a ++ b) as [|n l] eqn:E; [destruct a; [contradiction|discriminate]|].
+  cbn [last]. exact IH.
+Qed.
+
+Lemma last_not c l : l <> [] -> has c l = false -> last l 0 <> c.
+Proof.
+  induction l as [|x l IH]; intros Hne H; [contradiction|].
+  rewrite has_cons in H. apply orb_false_elim in H as [A B].
+  destruct l as [|y l]; [cbn; intro; subst; now rewrite N.eqb_refl in A|].
+  change (last (x :: y :: l) 0) with (last (y :: l) 0). apply IH; [discriminate|assumption].
+Qed.
+
+Lemma atom_text_nobar a : wf_atom a = true -> has 124 (atom_text a) = false.
+Proof.
+  destruct a as [l|c]; cbn.
+  - unfold wf_lit. intros H. repeat (apply andb_prop in H as [H ?]). now apply negb_true_iff in H2.
+  - intros _. destruct c; reflexivity.
+Qed.
+
+Lemma render_alts_at0 opt atoms : atoms <> [] -> forallb wf_atom atoms = true ->
+  at_ 0 (render_alts atoms opt) <> 124.
+Proof.
+  destruct atoms as [|a more]; [contradiction|]. intros _ H. cbn [forallb] in H. apply andb_prop in H as [Ha _].
+  destruct (atom_text_props a Ha) as (_ & _ & Ane).
+  destruct more; [cbn [render_alts]|change (render_alts (a :: a0 :: more) opt) with (atom_text a ++ 124 :: render_alts (a0 :: more) opt)];
+    rewrite at0_app by assumption; apply has_at0; try assumption; now apply atom_text_nobar.
+Qed.
+
+Lemma render_alts_last opt : forall atoms, atoms <> [] -> forallb wf_atom atoms = true ->
+  (last (render_alts atoms opt) 0 =? 124) = opt.
+Proof.
+  induction atoms as [|a more IH]; intros Hne H; [contradiction|].
+  cbn [forallb] in H. apply andb_prop in H as [Ha Hm].
+  destruct (atom_text_props a Ha) as (_ & _ & Ane).
+  destruct more as [|b more].
+  - cbn [render_alts]. destruct opt.
+    + rewrite last_app_ne by discriminate. reflexivity.
+    + rewrite app_nil_r. apply N.eqb_neq. apply last_not; [assumption|now apply atom_text_nobar].
+  - change (render_alts (a :: b :: more) opt) with (atom_text a ++ 124 :: render_alts (b :: more) opt).
+    rewrite last_app_ne by discriminate.
+    destruct (render_alts_props opt (b :: more) ltac:(discriminate) Hm) as (_ & _ & Rne).
+    change (124 :: render_alts (b :: more) opt) with ([124] ++ render_alts (b :: more) opt).
+    rewrite last_app_ne by assumption. apply IH; [discriminate|assumption].
+Qed.
 
 Theorem ml_spec varid : forall p f toks pre,
   forallb wf_word p = true -> varid_ok varid p ->
@@ -500,9 +553,9 @@ Proof.
       cbn [render_word] in *. cbn [wf_word] in Hw.
       change (at_ 0 ((91 :: cs ++ [93]) ++ rest)) with 91.
       cbn [N.eqb Pos.eqb andb].
-      destruct toks as [|t r]; [reflexivity|].
       assert (mem_N 93 (91 :: cs ++ [93]) = true) as ->.
       { change (has 93 (91 :: cs ++ [93]) = true). rewrite has_cons, has_app. cbn. apply orb_true_r. }
+      destruct toks as [|t r]; [reflexivity|].
       cbn [tl interp]. unfold set_match.
       destruct (t_str t) as [|c [|c2 n2]]; [reflexivity| |reflexivity].
       pose proof (set_scan_spec c cs) as HS.
@@ -537,7 +590,11 @@ Proof.
         destruct r0 as [|a [|b r1]]; [contradiction| |exact H].
         unfold at_. cbn. destruct Hrest as [-> | [r ->]]; cbn; now rewrite andb_false_r. }
       rewrite Hset, Hnot. cbn [andb].
-      destruct toks as [|t r]; [reflexivity|].
+      destruct toks as [|t r].
+      { assert (Hbar : (at_ 0 (r0 ++ rest) =? 124) = false).
+        { rewrite at0_app by assumption. apply N.eqb_neq. now apply render_alts_at0. }
+        rewrite Hbar. unfold r0. rewrite (render_alts_last opt atoms Hane H1). cbn [negb andb interp].
+        destruct opt; [|reflexivity]. apply Hgo. constructor. }
       inversion Htoks as [|? ? [Hok Hcompat] Hr']; subst.
       unfold multi_compare.
       rewrite (mc_alts t varid opt atoms _ rest Hane H1 Hok).
